@@ -9,7 +9,10 @@ from pyvc import shapes as S
 from pyvc import values as V
 from pyvc.api import *
 from pyvc.api import Contract
-from pyvc.values import cur, mk_bool, mk_int
+from pyvc.values import cur, mk_bool, mk_int, SOpaque
+from pyvc.seqs import LRef, ModelObj
+from pyvc.engine import PyRaise, SExc
+from pyvc.text import char_ord
 
 from urwid.display import escape as _esc
 
@@ -417,18 +420,35 @@ def unfold_final(keys, j):
     return True
 
 
-def sgr_shape(keys):
-    """(m, s1, s2, wellformed): final letter at m, separators at s1 < s2, three non-empty ASCII-digit fields."""
+def qall(lo, hi, fn):
+    """`forall` of pyvc.values without its solver call for "is the range empty" (which only times out once the path
+    condition carries quantifiers): for all lo <= j < hi: fn(j), facts assumed while evaluating fn(j) kept."""
+    if isinstance(lo, int) and isinstance(hi, int):
+        return forall(lo, hi, fn)
+    st = cur()
+    j = z3.Int(st.fresh_name("q"))
+    saved, st.capture = st.capture, []
+    try:
+        body = fn(V.SInt(j))
+        facts = list(st.capture)
+    finally:
+        st.capture = saved
+    rng = z3.And(V._z(lo) <= j, j < V._z(hi))
+    if facts:
+        st.assume(z3.ForAll([j], z3.Implies(rng, z3.And(*facts))))
+    return mk_bool(z3.ForAll([j], z3.Implies(rng, V._zb(body) if isinstance(body, (V.SBool, bool)) else z3.BoolVal(bool(body)))))
+
+
+def is_ascii_digit(k):
+    return both(48 <= k, k <= 57)
+
+
+def sgr_wf(keys, s1, s2, m):
+    """keys[0:m] is  d+ ; d+ ; d+  with the separators at s1 < s2, and keys[m] is the final letter."""
     n = klen(keys)
     k = lambda j: kat(keys, imax(0, imin(j, n - 1)))  # noqa: E731
-    m = FM(keys, 0)
-    s1 = DE(keys, 0)
-    s2 = DE(keys, s1 + 1)
-    e3 = DE(keys, s2 + 1)
-    for a, j in ((0, 0), (s1 + 1, s1 + 1), (s2 + 1, s2 + 1)):
-        unfold_digits(keys, a, j)
-    wellformed = both(m < n, s1 >= 1, s1 < m, k(s1) == 59, s2 > s1 + 1, s2 < m, k(s2) == 59, e3 == m, m > s2 + 1)
-    return m, s1, s2, wellformed
+    return both(m < n, s1 >= 1, s2 > s1 + 1, m > s2 + 1, k(s1) == 59, k(s2) == 59,
+                qall(0, m, lambda j: either(j == s1, j == s2, is_ascii_digit(kat(keys, j)))))
 
 
 def sgr_name(b, final):
@@ -444,6 +464,143 @@ def sgr_name(b, final):
 
 SGR_NAMES = tuple(nm for nm in MOUSE_NAMES if "double" not in nm and "triple" not in nm and "click" not in nm)
 
+# A str built from key codes is modelled as a VIEW on the key list: KStr(keys, lo, hi) = "".join(chr(k) for k in
+# keys[lo:hi]).  Modelled operations (each a builtin model, cross-checked against CPython by the static check
+# `kstr-models-agree-with-cpython`): s + chr(keys[hi]) (the view grows by one), len, s[a:b], s[i], s.split(";")
+# (three fields exactly when there are exactly two separators), s.isascii(), s.isdigit(), int(s) (the decimal
+# value for a non-empty ASCII-digit string, ValueError possible otherwise).
+DIGIT_ORDS = tuple(k for k in range(256) if chr(k).isdigit())  # '0'..'9' and the superscripts ² ³ ¹
+
+
+class KStr(ModelObj):
+    def __init__(self, keys, lo, hi):
+        self.keys, self.lo, self.hi = keys, lo, hi
+
+    def at(self, j):
+        return kat(self.keys, self.lo + j)
+
+    def py_len(self, st):
+        return self.hi - self.lo
+
+    def py_truth(self, st):
+        return self.hi > self.lo
+
+    def py_getitem(self, ip, st, idx):
+        from pyvc.builtins_model import norm_index
+        from pyvc.text import chr_of
+
+        n = self.hi - self.lo
+        if isinstance(idx, Q.SSlice):
+            start, stop, step = Q.slice_indices(idx, n)
+            if not (isinstance(step, int) and step == 1):
+                raise Unsupported("extended slice of a modelled str")
+            return KStr(self.keys, self.lo + start, self.lo + imax(start, stop))
+        j = norm_index(st, idx, n, "string index out of range")
+        code = self.at(j)
+        w = st.choose([code == 77, code == 109, both(code != 77, code != 109)])
+        return ("M", "m", None)[w] if w < 2 else chr_of(code)
+
+    def all_(self, pred):
+        return qall(self.lo, self.hi, lambda j: pred(kat(self.keys, j)))
+
+    def py_call(self, ip, st, name, args, kwargs):
+        if name == "isascii" and not args:
+            return self.all_(lambda k: k < 128)
+        if name == "isdigit" and not args:
+            return both(self.hi > self.lo, self.all_(lambda k: either(*[k == d for d in DIGIT_ORDS])))
+        if name == "split" and args == [";"] and not kwargs:
+            if st.fork(2) == 0:
+                s1, s2 = st.fresh_int("sep1"), st.fresh_int("sep2")
+                st.assume(both(self.lo <= s1, s1 < s2, s2 < self.hi, kat(self.keys, s1) == 59, kat(self.keys, s2) == 59))
+                st.assume(qall(self.lo, self.hi, lambda j: either(j == s1, j == s2, kat(self.keys, j) != 59)))
+                st.ghost["c05_split"] = (s1, s2)
+                return LRef((KStr(self.keys, self.lo, s1), KStr(self.keys, s1 + 1, s2), KStr(self.keys, s2 + 1, self.hi)))
+            # any other number of separators: some number of fields other than three (their content is not modelled);
+            # "not exactly two separators" is kept as a fact for the caller's postcondition
+            m = st.fresh_int("nfields")
+            st.assume(both(m >= 1, m != 3))
+            keys, lo, hi = self.keys, self.lo, self.hi
+            st.ghost["c05_not_two_separators"] = lambda t1, t2: neg(both(
+                lo <= t1, t1 < t2, t2 < hi, kat(keys, t1) == 59, kat(keys, t2) == 59,
+                qall(lo, hi, lambda j: either(j == t1, j == t2, kat(keys, j) != 59))))
+
+            def getter(j):
+                raise Unsupported("content of the fields of a split that did not give three fields")
+
+            return LRef(Q.SSeq(m, getter, None, None, "fields"))
+        raise Unsupported(f"str.{name} on a modelled str")
+
+    def py_int(self, ip, st):
+        ok = both(self.hi > self.lo, self.all_(is_ascii_digit))
+        if not st.branch(ok):
+            if st.fork(2) == 0:
+                raise PyRaise(SExc(ValueError, ("invalid literal for int()",), site="builtin"))
+            return st.fresh_int("lenient_int")  # int() also accepts signs, blanks, underscores, other digits
+        unfold_digits(self.keys, self.lo, self.lo)
+        return DEC(self.keys, self.lo, self.hi)
+
+
+def _sgr_binop(ip, st, op, a, b):
+    import ast as _ast
+
+    if isinstance(op, _ast.Add) and (a == "" if isinstance(a, str) else isinstance(a, KStr)) and isinstance(b, SOpaque) and b.kind == "Char":
+        keys = st.ghost["c05_keys"]
+        lo, hi = (0, 0) if isinstance(a, str) else (a.lo, a.hi)
+        code = char_ord(b)
+        fits = both(hi < klen(keys), kat(keys, imax(0, imin(hi, klen(keys) - 1))) == code)
+        r, _m = st._check(z3.Not(V._zb(fits)), st.cfg.branch_timeout_ms)
+        if r != z3.unsat:
+            raise Unsupported("str + chr(k): k is not provably the next key code (the str model is a view on the key list)")
+        return KStr(keys, lo, hi + 1)
+    return NotImplemented
+
+
+def _sgr_setup(st, self_obj, vals):
+    st.ghost["c05_keys"] = vals["keys"]
+
+
+def _vbounds(value):
+    return (0, 0) if isinstance(value, str) else (value.lo, value.hi)
+
+
+def _sgr_loop0(v):
+    keys = v.keys
+    lo, hi = _vbounds(v.value)
+    unfold_final(keys, v.i_)
+    yield "value-is-the-codes-read-so-far", both(lo == 0, hi == v.i_) if isinstance(v.value, KStr) else v.i_ == 0
+    yield "position-tracks-the-iteration", v.pos_m == v.i_
+    yield "no-final-letter-so-far", both(neg(v.found_m), FM(keys, 0) == FM(keys, v.i_))
+
+
+def _xcheck_kstr():
+    """CPython cross-check of the str models on concrete codes: isascii / isdigit / split(';') field count and
+    content / int() of ASCII-digit strings (decimal recursion) — 4000 pseudo-random and boundary strings."""
+    import random
+
+    rnd = random.Random(5)
+    alphabet = [48, 49, 57, 59, 59, 77, 109, 32, 43, 95, 178, 185, 200, 58, 47]
+    bad = []
+    for t in range(4000):
+        codes = [rnd.choice(alphabet) for _ in range(rnd.randrange(0, 9))]
+        sv = "".join(chr(k) for k in codes)
+        if sv.isascii() != all(k < 128 for k in codes):
+            bad.append(("isascii", codes))
+        if sv.isdigit() != (len(codes) > 0 and all(k in DIGIT_ORDS for k in codes)):
+            bad.append(("isdigit", codes))
+        seps = [j for j, k in enumerate(codes) if k == 59]
+        fields = sv.split(";")
+        if (len(fields) == 3) != (len(seps) == 2):
+            bad.append(("split-count", codes))
+        if len(seps) == 2 and fields != [sv[: seps[0]], sv[seps[0] + 1 : seps[1]], sv[seps[1] + 1 :]]:
+            bad.append(("split-fields", codes))
+        if codes and all(48 <= k <= 57 for k in codes):
+            dec = 0
+            for k in codes:
+                dec = 10 * dec + k - 48
+            if int(sv) != dec:
+                bad.append(("int", codes))
+    return "kstr-models-agree-with-cpython", not bad, f"4000 strings, mismatches: {bad[:3]}"
+
 
 @contract(ES + "KeyqueueTrie.read_sgrmouse_info", property="C05", replayable=False)
 class read_sgrmouse_info:
@@ -451,16 +608,33 @@ class read_sgrmouse_info:
     params = dict(keys=CODES, more_available=Bool)
     result = Opt(Tup(Tup(Atom(*SGR_NAMES), Int, Int, Int), CODES))
     raises = (_esc.MoreInputRequired,)
+    setup = staticmethod(_sgr_setup)
+    binop = staticmethod(_sgr_binop)
+    branch_timeout_ms = 300
+    static_checks = [_xcheck_kstr]
 
     def ensures(old, s, a, result):
+        st = cur()
         n = klen(a.keys)
-        m, s1, s2, wellformed = sgr_shape(a.keys)
+        m = FM(a.keys, 0)
+        unfold_final(a.keys, 0)
         if is_none(result):
-            yield "none-only-on-a-malformed-or-unterminated-report", neg(wellformed)
             yield "none-on-an-unterminated-report-only-when-nothing-more-can-come", implies(m == n, neg(a.more_available))
+            if not st.ghost.get("c05_assuming", 0):
+                # "None only on a malformed report": for arbitrary separator positions t1 < t2 the report is not
+                # well-formed (the positions are fresh constants: a universally quantified goal)
+                t1, t2 = st.fresh_int("t1"), st.fresh_int("t2")
+                nts = st.ghost.get("c05_not_two_separators")
+                if nts is not None:
+                    st.assume(nts(t1, t2))
+                yield "none-only-on-a-malformed-or-unterminated-report", neg(sgr_wf(a.keys, t1, t2, m))
             return
         (name, button, x, y), rem = val(result)
-        yield "reported-exactly-on-wellformed-reports", wellformed
+        if st.ghost.get("c05_assuming", 0):
+            s1, s2 = st.fresh_int("sep1"), st.fresh_int("sep2")  # "there are separator positions such that ..."
+        else:
+            s1, s2 = st.ghost["c05_split"]  # witnesses: where split() found the separators on this path
+        yield "reported-only-on-wellformed-reports", sgr_wf(a.keys, s1, s2, m)
         b = DEC(a.keys, 0, s1)
         yield "column-and-row-are-the-decimal-fields-less-one", both(x == DEC(a.keys, s1 + 1, s2) - 1, y == DEC(a.keys, s2 + 1, m) - 1)
         yield "button-is-low-two-bits-plus-one-wheel-adds-three", button == b % 4 + 1 + ite(bit(b, 6), 3, 0)
@@ -471,7 +645,10 @@ class read_sgrmouse_info:
 
     def on_raise(old, s, a, exc):
         yield "more-input-asked-only-when-more-can-come", a.more_available
+        unfold_final(a.keys, 0)
         yield "more-input-asked-only-while-the-final-letter-is-missing", FM(a.keys, 0) == klen(a.keys)
+
+    loops = {0: Loop(invariant=_sgr_loop0, shapes={"value": Custom(lambda st, hint: KStr(st.ghost["c05_keys"], 0, st.fresh_int("vhi")), "KStr")})}
 
 
 TRIE = Obj(_esc.KeyqueueTrie, dict(data=Opaque("TrieMap")))
